@@ -230,3 +230,5 @@ func (p *VerifPending) IsReq(ptr interface{}) bool {
 	r, ok := ptr.(*request)
 	return ok && r == p.req
 }
+
+func (v *VerifCarried) Message() *Message { return v.r.msg }
